@@ -141,6 +141,32 @@ func cmdCheck(args []string) int {
 		}
 		units = append(units, ur)
 		unitOf[u] = ur
+		if strings.HasPrefix(u, "lean:") {
+			ur.Kind = "lean-lemmas"
+			sf := g.specFileByPkgName(strings.TrimPrefix(u, "lean:"))
+			if sf == nil {
+				ur.Status = "stale: no contract file for " + u
+				stale = append(stale, staleUnit{u, "no contract file"})
+				continue
+			}
+			ok, names, secs, out := g.CheckLean(sf, *verif, 15*time.Minute)
+			for _, n := range names {
+				o := &Obligation{Fn: u, Name: "lemma:" + n + "/lean", Kind: "lean", Guard: True, Goal: True, Text: "Lean 4 + Mathlib accepts the generated theorem " + n + " (/verif/lemmas/Generated.lean)", Pos: "lemmas/proofs/" + n + ".lean", Seconds: secs / float64(len(names))}
+				if ok {
+					o.Result, o.Solver = "unsat", "lean"
+				} else {
+					o.Result, o.Solver, o.Model = "error", "lean", out
+				}
+				all = append(all, o)
+				ur.Obls++
+			}
+			if !ok && len(names) == 0 {
+				o := &Obligation{Fn: u, Name: u + "/generate", Kind: "lean", Guard: True, Goal: True, Text: "Lean file generation", Result: "error", Solver: "lean", Model: out}
+				all = append(all, o)
+				ur.Obls++
+			}
+			continue
+		}
 		obls, sm, err := g.obligationsFor(u)
 		if err != nil {
 			ur.Status = "stale: " + err.Error()
